@@ -52,8 +52,53 @@ def solve_flat_ss(calib=None, res_k=0.0):
     c = dict(CALIB if calib is None else calib)
     return flat().solve_steady_state(c, {'k': c['k'], 'p': c['p']}, {'res_k': res_k, 'res_p': 0.0}, solver='broyden_custom')
 
+# ---- the same model with an INTEGER-valued parameter left of a product that is then led, and a third unknown/target pair ----
+@simple
+def annual(mpk, periods):
+    r_ann = (periods * mpk)(+1)
+    return r_ann
+
+@simple
+def bond(i, r_ann):
+    res_i = i - r_ann
+    return res_i
+
+CALIB_INT = dict(CALIB, periods=4, i=1.0)
+UNKNOWNS_INT, TARGETS_INT = ['k', 'p', 'i'], ['res_k', 'res_p', 'res_i']
+
+
+def flat_int():
+    return combine(BLOCKS + [annual, bond], name='flat_int')
+
+
+def solve_flat_int_ss(calib=None):
+    c = dict(CALIB_INT if calib is None else calib)
+    return flat_int().solve_steady_state(c, {'k': c['k'], 'p': c['p'], 'i': c['i']}, {'res_k': 0.0, 'res_p': 0.0, 'res_i': 0.0}, solver='broyden_custom')
+
 # ---- linear contemporaneous blocks with integer coefficients (exact chain-rule correspondence at T = 1) -------------
 '''
+
+
+def reference_paths(ss, dev, T, ss0=None):
+    """plain numpy evaluation of the equations of flat() / flat_int() on level paths; dev: deviation paths of k, p, (i), z, e, m (missing = zero); returns deviations of every output from ss.
+    Values before date 0 are those of ss0 (default ss), values after T-1 those of ss."""
+    ss0 = ss if ss0 is None else ss0
+    lv = {x: ss[x] + np.asarray(dev.get(x, np.zeros(T)), float) for x in ('k', 'p', 'z', 'e', 'm')}
+    lag = lambda x, name: np.concatenate(([ss0[name]], x[:-1]))
+    lead = lambda x, name: np.concatenate((x[1:], [ss[name]]))
+    al, be = ss['alpha'], ss['beta']
+    o = {}
+    o['y'] = lv['z'] * lag(lv['k'], 'k') ** al
+    o['mpk'] = al * lead(lv['z'], 'z') * lv['k'] ** (al - 1)
+    o['c'] = o['y'] * (1 + 0.3 * lag(lv['p'], 'p')) - lv['e']
+    o['d'] = 0.5 * o['c'] + 0.2 * lead(o['c'], 'c')
+    o['res_k'] = o['c'] ** (-1) - be * (o['mpk'] + 0.9) * lead(o['c'], 'c') ** (-1)
+    o['res_p'] = lv['p'] - 0.4 * lead(lv['p'], 'p') - 0.3 * (o['d'] - 0.7 * o['y']) - lag(lv['e'], 'e') * 0.1 - lv['m']
+    o['s'] = o['y'] - o['c'] + 0.1 * lag(o['d'], 'd')
+    if 'periods' in ss:
+        o['r_ann'] = ss['periods'] * lead(o['mpk'], 'mpk')
+        o['res_i'] = ss['i'] + np.asarray(dev.get('i', np.zeros(T)), float) - o['r_ann']
+    return {k: v - ss[k] for k, v in o.items()}
 
 
 def load():
@@ -247,6 +292,19 @@ def check_examples(names, what, T=30):
             bad = [k for k in U if np.abs(imp[k][:W] - app[k][:W]).max() > 1e-8]
             if bad:
                 viol.append(dict(what='linear impulse of a shipped example model differs from G applied to the shock', input=dict(inp, outputs=bad), signature=dict(op='example-impulse', model=nm)))
+            # the same with differentiation options for the heterogeneous-agent blocks (two-sided, coarse step): the options must reach the linear impulse exactly as they reach G
+            from sequence_jacobian.blocks.het_block import HetBlock
+            hets = [b.name for b in getattr(model, 'blocks', []) if isinstance(b, HetBlock)]
+            if hets:
+                n += 1
+                o2 = {h: dict(twosided=True, h=2e-3) for h in hets}
+                G2 = model.solve_jacobian(ss, U, Tg, Z, T=T, options=o2)
+                imp2 = model.solve_impulse_linear(ss, U, Tg, sh, options=o2)
+                app2 = G2 @ sh
+                bad = [k for k in U if np.abs(imp2[k][:W] - app2[k][:W]).max() > 1e-8 * max(1.0, np.abs(app2[k]).max() / 0.01)]
+                if bad:
+                    viol.append(dict(what='with two-sided differentiation requested for the household block, the linear impulse of a shipped example model differs from G (same options) applied to the shock',
+                                     input=dict(inp, outputs=bad, options=o2), observed=float(max(np.abs(imp2[k][:W] - app2[k][:W]).max() for k in bad)), signature=dict(op='example-impulse-options', model=nm)))
         elif what == 'nl':
             n += 1
             T = 120          # short horizons truncate the linear operator algebra and the nonlinear path evaluation differently
